@@ -3,6 +3,7 @@ package broker
 import (
 	"encoding/json"
 	"fmt"
+	"strings"
 	"time"
 
 	"github.com/mdzio/go-mqtt/verifrt/vsched"
@@ -139,10 +140,15 @@ func C05(c *core.Ctx) {
 
 // c05sched: the attacker's teardown races the fan-out of the witness' publishes to it.
 func c05sched(c *core.Ctx, dev int) {
-	for _, variant := range []string{"attacker-first", "attacker-last", "attacker-not-reading", "attacker-ring-full", "attacker-ring-full/garbage", "attacker-ring-full/disconnect", "attacker-ring-full/keepalive"} {
+	for _, variant0 := range []string{"attacker-first", "attacker-last", "attacker-not-reading", "attacker-ring-full", "attacker-ring-full/garbage", "attacker-ring-full/disconnect", "attacker-ring-full/keepalive",
+		"attacker-last+subscribed-first", "attacker-not-reading+subscribed-first", "attacker-ring-full+subscribed-first"} {
 		for _, q := range []byte{0, 1} {
-			variant, q := variant, q
-			name := fmt.Sprintf("cut-during-fanout/%s/qos%d", variant, q)
+			variant0, q := variant0, q
+			name := fmt.Sprintf("cut-during-fanout/%s/qos%d", variant0, q)
+			// "+subscribed-first": the attacker's subscription precedes the witness' in the
+			// subscriber list of the topic (the fan-out reaches the attacker first)
+			variant := strings.TrimSuffix(variant0, "+subscribed-first")
+			subFirst := variant != variant0
 			body := func() {
 				t := newTD()
 				var x *tdConn
@@ -162,8 +168,13 @@ func c05sched(c *core.Ctx, dev int) {
 					}
 					x = t.connect("X", cap, ka, false)
 				}
-				t.subscribe("WS", "wit/ness", 1)
-				t.subscribe("X", "wit/ness", q)
+				if subFirst {
+					t.subscribe("X", "wit/ness", q)
+					t.subscribe("WS", "wit/ness", 1)
+				} else {
+					t.subscribe("WS", "wit/ness", 1)
+					t.subscribe("X", "wit/ness", q)
+				}
 				if vsched.Failed() {
 					return
 				}
